@@ -17,6 +17,7 @@ pub fn esc(s: &str) -> String {
             ';' => o.push_str("%3B"),
             '|' => o.push_str("%7C"),
             '-' => o.push_str("%2D"),
+            ' ' => o.push_str("%20"),
             c => o.push(c),
         }
     }
